@@ -90,6 +90,69 @@ def arg_of(item, reaction_col):
     return item
 
 
+def run_cli(run, rid, proj, wd, devnull):
+    """python -m synrbl run <csv> -o <out> --out-columns rid,note (called in
+    process through the argparse entry point)."""
+    import argparse
+    import csv as _csv
+    import pandas as pd
+    from synrbl.SynCmd import cmd_run
+    col = run.get("reaction_col", "reaction")
+    src = os.path.join(wd, "cli_in_%d_%d.csv" % (os.getpid(), rid))
+    dst = os.path.join(wd, "cli_out_%d_%d.csv" % (os.getpid(), rid))
+    recs = run["inputs"]
+    with open(src, "w", newline="") as f:
+        w = _csv.DictWriter(f, fieldnames=["rid", col, "note"])
+        w.writeheader()
+        for r_ in recs:
+            w.writerow({"rid": r_["rid"], col: r_[col], "note": r_["note"]})
+    ap = argparse.ArgumentParser()
+    sub = ap.add_subparsers()
+    cmd_run.configure_argparser(sub)
+    argv = ["run", src, "-o", dst, "-p", str(run.get("n_jobs", 1)), "--col", col, "--out-columns", "rid,note"]
+    if run.get("batch_size"):
+        argv += ["--batch-size", str(run["batch_size"])]
+    if run.get("threshold"):
+        argv += ["--min-confidence", str(run["threshold"])]
+    err = ""
+    stderr_fd = os.dup(2)
+    os.dup2(devnull.fileno(), 2)
+    try:
+        args = ap.parse_args(argv)
+        args.func(args)
+    except BaseException as ex:  # argparse exits, CLI validation errors
+        err = repr(ex)
+    finally:
+        os.dup2(stderr_fd, 2)
+        os.close(stderr_fd)
+    rows = []
+    stats = {}
+    if os.path.exists(dst):
+        df = pd.read_csv(dst, keep_default_na=False)
+        for rec in df.to_dict("records"):
+            echo = rec.get("input_reaction", "")
+            rows.append({"rid": str(rec.get("rid", "")), "note": str(rec.get("note", "")),
+                         "echo": echo if isinstance(echo, str) else "",
+                         "reaction": rec.get(col, "") if isinstance(rec.get(col, ""), str) else "",
+                         "solved": str(rec.get("solved", "")) == "True",
+                         "echo_facts": {k: v for k, v in proj.facts(echo if isinstance(echo, str) else "").items()
+                                        if k in ("parses", "l", "r")}})
+        os.remove(dst)
+    sp = dst + ".stats"
+    if os.path.exists(sp):
+        with open(sp) as f:
+            stats = {k: int(v) for k, v in json.load(f).items()}
+        os.remove(sp)
+    os.remove(src)
+    return {"ev": "cli", "run": rid, "name": run.get("name"), "ninputs": len(recs), "nrows": len(rows),
+            "raised": err, "rows": rows, "stats": stats,
+            "inputs": [{"rid": str(r_["rid"]), "note": str(r_["note"]), "arg": r_[col]} for r_ in recs],
+            "arg_facts": [{k: v for k, v in proj.facts(r_[col]).items() if k in ("parses", "l", "r")} for r_ in recs],
+            "kinds": run.get("kinds", []),
+            "cfg": {"batch_size": run.get("batch_size"), "n_jobs": run.get("n_jobs", 1),
+                    "threshold": run.get("threshold", 0), "form": "cli", "col": col}}
+
+
 def main():
     plan_file, out_file = sys.argv[1], sys.argv[2]
     with open(plan_file) as f:
@@ -137,6 +200,9 @@ def main():
         inputs = run["inputs"]
         form = run.get("form", "list")
         tmp = None
+        if form == "cli":
+            emit(run_cli(run, rid, proj, os.path.dirname(out_file), devnull))
+            continue
         if form == "list":
             data = list(inputs)
         elif form == "dict":
@@ -200,13 +266,17 @@ def main():
                 e.update({"run": rid, "name": run.get("name"), "pos": k, "aligned": aligned})
                 emit(e)
                 summary.append({"solved": e["solved"], "by": e["by"], "echo": e["input_reaction"],
-                                "reaction": e["reaction"]})
+                                "reaction": e["reaction"],
+                                "echo_facts": {k: e["echo"][k] for k in ("parses", "l", "r")}})
         emit({"ev": "run", "run": rid, "name": run.get("name"), "ninputs": len(inputs),
               "nrows": len(rows) if rows is not None else -1, "raised": err or "",
               "rows": summary, "stats": {k: int(v) for k, v in stats.items()},
               "cfg": {"batch_size": run.get("batch_size"), "n_jobs": run.get("n_jobs", 1),
                       "threshold": run.get("threshold", 0), "form": form, "col": col},
               "args": [a if isinstance(a, str) else repr(a) for a in args],
+              "arg_facts": [{k: v for k, v in proj.facts(a if isinstance(a, str) else "").items()
+                             if k in ("parses", "l", "r")} for a in args],
+              "kinds": run.get("kinds", []),
               "wall_s": round(wall, 2)})
     out.close()
     with open(out_file + ".mols.json", "w") as f:
